@@ -38,6 +38,9 @@ def check(ctx, rep):
     rep.rule("R-ADDCB", "add_done_callback: `not done()` and the append happen under one hold of self._me_lock; the direct call fn(self) happens without it, only on the done path")
     rep.rule("R-CANCEL", "cancel(): cancelled -> True; done -> False; falsy veto -> False without touching the state; else stdlib cancel, then set_running_or_notify_cancel under the lock and one callback dispatch outside it; returns only True/False/the stdlib result; never raises")
     rep.rule("R-NOTIFY", "a future allocated by the library is terminal on every path before it escapes, or its class pairs every successful cancel with exactly one set_running_or_notify_cancel")
+    rep.rule("R-PROBE", "library code that handles a future it was given never uses hasattr/getattr on it with a name outside the Future API: a proxy future forwards the lookup to the awaited result, the delegate callback raises the future's own exception and the dependent future is never completed (its waiters are never released)")
+    from .c17 import probe_rule
+    probe_rule(ctx, rep, "R-PROBE")
     rep.rule("R-JOBPOP", "every removal of a retry job happens after its future was resolved or found done, or with that future's lock held, or in the same executor-lock region as the insertion of its replacement")
     P = roles.proto(ctx)
     fut = P.fut
